@@ -369,6 +369,40 @@ def nested(w, acc, name, g, N, alone, plain, viol):
                 viol("nested:" + p, {"kind": "nested", "L1": l1, "L2": l2}, alone[l1], a)
 
 
+    # (d) work AFTER the nested call: the enclosing limit must still be in force once the inner call has
+    # exited.  The nested form does every inference of the plain conjunction (G, W) and some more, so it
+    # can only be complete under an outer limit under which the plain conjunction is complete too.
+    W = "c40_down(10)"
+    lim = 700
+    # the two forms are not counted identically to the last inference (the nested form was seen to need one
+    # inference LESS than the plain conjunction for a deterministic inner goal): W costs about 40, so a limit
+    # that is lifted at the inner exit shows as completion far more than SLACK below the plain threshold
+    SLACK = 12
+
+    def ptext(l2):
+        return "g(call_with_inference_limit((%s, %s), %d, R), 300)" % (g, W, l2)
+
+    def wtext(l1, l2):
+        return ("g(call_with_inference_limit((call_with_inference_limit(%s, %d, R1), %s), %d, R), 300)"
+                % (g, l1, W, l2))
+    rs = px.run_goals(w, [ptext(l2) for l2 in range(0, lim + 1)])
+    plain_c = [complete(answer_list(r)) and not answer_list(r)[0].startswith("exc") for r in rs]
+    has_sols = bool(plain[1]) if isinstance(plain, tuple) else True
+    np_ = next((l for l in range(0, lim + 1) if plain_c[l]), None)
+    if np_ is not None and has_sols:
+        for l1 in (BIG, N + 5, N + 45):
+            rs = px.run_goals(w, [wtext(l1, l2) for l2 in range(0, np_)])
+            for l2, r in zip(range(0, np_), rs):
+                a = answer_list(r, nested=True)
+                acc.case(l2 > 0, "nested_then:%s" % ("cut_short" if not complete(a) else "complete"))
+                if a[0].startswith("abn"):
+                    viol("nested_then:abnormal %s" % a[0], {"kind": "nested_then", "L1": l1, "L2": l2}, "normal", a)
+                elif l2 < np_ - SLACK and complete(a) and a[1] and not a[0].startswith("exc"):
+                    viol("nested_then:outer_limit_not_enforced_after_inner_exit",
+                         {"kind": "nested_then", "L1": l1, "L2": l2},
+                         "inference_limit_exceeded (the plain conjunction needs a limit of %d)" % np_, a)
+
+
 OFFSET = {}
 
 
